@@ -52,12 +52,13 @@ def sums(b):
     s2 = sum((i + 1) * x for i, x in enumerate(b))
     return '%d.%d.%d' % (len(b), s1, s2)
 
-def observe(fmt, data, sizes, late=None, queries=True, inspector=None):
+def observe(fmt, data, sizes, late=None, queries=True, inspector=None, between=None):
     """queries=False: do not touch any property between chunks (records only after finish)"""
     m = fi()
     insp = inspector if inspector is not None else m.ALL_FORMATS[fmt]()
     recs = []
-    for chunk in split_sizes(data, sizes):
+    for k, chunk in enumerate(split_sizes(data, sizes)):
+        if between is not None: between(k)       # what else happens in the process between two chunks
         try:
             insp.eat_chunk(chunk); e = '-'
         except Exception as ex:
